@@ -213,7 +213,13 @@ func runTrustStoreFS() int {
 				crossWant[ot] = cert
 			}
 		}
-		ts := truststore.NewX509TrustStore(dir.NewSysFS(cfg))
+		// the configuration directory is given under some spelling of its path (literal, through a symbolic link, with dot
+		// elements, relative): which directory it is decides, not how it was written
+		cfgGiven := cfg
+		if _, err := os.Stat(cfg); err == nil {
+			cfgGiven = spell(cfg, filepath.Join(caseDir, "config-link"), mix(*flagSeed, c.ID, "spell"))
+		}
+		ts := truststore.NewX509TrustStore(dir.NewSysFS(cfgGiven))
 		obs := TSObs{ErrClass: "none", CrossOK: true, ReloadOK: true}
 		var certs []*x509.Certificate
 		var gerr error
